@@ -3,6 +3,7 @@ package server
 import (
 	"encoding/json"
 	"log"
+	"reflect"
 	"sync"
 
 	"github.com/cenkalti/rpc2"
@@ -31,6 +32,8 @@ type monitor struct {
 	kind    monitorKind
 	request map[string]*ovsdb.MonitorRequest
 	client  *rpc2.Client
+	// dbName is the database the monitor was requested on
+	dbName string
 }
 
 type monitorKind int
@@ -122,9 +125,24 @@ func (m *monitor) Send3(id uuid.UUID, update database.Update) {
 	}
 }
 
-func filterColumns(row *ovsdb.Row, columns map[string]bool) *ovsdb.Row {
-	if row == nil {
+// selectedColumns returns the columns the monitor selected for a table, nil
+// if it selected all of them (no "columns" member in the request)
+func (m *monitor) selectedColumns(table string) map[string]bool {
+	request := m.request[table]
+	if request == nil || request.Columns == nil {
 		return nil
+	}
+	cols := make(map[string]bool, len(request.Columns)+1)
+	cols["_uuid"] = true
+	for _, c := range request.Columns {
+		cols[c] = true
+	}
+	return cols
+}
+
+func filterColumns(row *ovsdb.Row, columns map[string]bool) *ovsdb.Row {
+	if row == nil || columns == nil {
+		return row
 	}
 	new := make(ovsdb.Row, len(*row))
 	for k, v := range *row {
@@ -146,11 +164,7 @@ func (m *monitor) filter(update database.Update) ovsdb.TableUpdates {
 			continue
 		}
 		tu := ovsdb.TableUpdate{}
-		cols := make(map[string]bool)
-		cols["_uuid"] = true
-		for _, c := range m.request[table].Columns {
-			cols[c] = true
-		}
+		cols := m.selectedColumns(table)
 		_ = update.ForEachRowUpdate(table, func(uuid string, ru2 ovsdb.RowUpdate2) error {
 			ru := &ovsdb.RowUpdate{}
 			ru.FromRowUpdate2(ru2)
@@ -160,11 +174,12 @@ func (m *monitor) filter(update database.Update) ovsdb.TableUpdates {
 			case ru.Modify() && m.request[table].Select.Modify():
 				fallthrough
 			case ru.Delete() && m.request[table].Select.Delete():
-				if len(cols) == 0 {
-					return nil
-				}
 				ru.New = filterColumns(ru.New, cols)
 				ru.Old = filterColumns(ru.Old, cols)
+				if ru.Modify() && reflect.DeepEqual(*ru.Old, *ru.New) {
+					// nothing changed in the columns this monitor selected
+					return nil
+				}
 				tu[uuid] = ru
 			}
 			return nil
@@ -187,11 +202,7 @@ func (m *monitor) filter2(update database.Update) ovsdb.TableUpdates2 {
 			continue
 		}
 		tu2 := ovsdb.TableUpdate2{}
-		cols := make(map[string]bool)
-		cols["_uuid"] = true
-		for _, c := range m.request[table].Columns {
-			cols[c] = true
-		}
+		cols := m.selectedColumns(table)
 		_ = update.ForEachRowUpdate(table, func(uuid string, ru2 ovsdb.RowUpdate2) error {
 			switch {
 			case ru2.Insert != nil && m.request[table].Select.Insert():
@@ -199,12 +210,13 @@ func (m *monitor) filter2(update database.Update) ovsdb.TableUpdates2 {
 			case ru2.Modify != nil && m.request[table].Select.Modify():
 				fallthrough
 			case ru2.Delete != nil && m.request[table].Select.Delete():
-				if len(cols) == 0 {
-					return nil
-				}
 				ru2.Insert = filterColumns(ru2.Insert, cols)
 				ru2.Modify = filterColumns(ru2.Modify, cols)
 				ru2.Delete = filterColumns(ru2.Delete, cols)
+				if ru2.Modify != nil && len(*ru2.Modify) == 0 {
+					// nothing changed in the columns this monitor selected
+					return nil
+				}
 				tu2[uuid] = &ru2
 			}
 			return nil
